@@ -28,6 +28,13 @@ INVALID_NUMERIC = frozenset(
 MathArgType = Union[SupportsFloat, SupportsIndex]
 FloatArgType = Union[SupportsFloat, SupportsIndex, str]
 
+# A regex for optional spaces and XPath 2.0+ comments (nested up to a second level),
+# used by tokenizer patterns to look ahead after a name. A comment never extends
+# beyond its closing delimiter, so that a following comment is not joined with it.
+_COMMENT_TEXT = r'(?:[^(:]|\((?!\:)|\:(?!\)))*'
+SPACES_OR_COMMENTS = (r'\s*(?:\(\:' + _COMMENT_TEXT +
+                      r'(?:\(\:' + _COMMENT_TEXT + r'\:\)' + _COMMENT_TEXT + r')*\:\)\s*)*')
+
 T = TypeVar('T')
 
 
